@@ -9,7 +9,7 @@ LEVEL = 'model_checking'
 PLAIN = ['caseexpr', 'parensemi', 'createplain', 'txbegin']
 
 # replacement bodies for opaque regions (DESIGN C05): none contains the region's own terminator
-BODIES = [';', 'a;b', '; select 1;', "x'y", 'x"y', '`', '/*', '*/', '--', ' BEGIN ', 'END;', 'GO',
+BODIES = ["it''s;", "'';''", '"";', '``;', ';', 'a;b', '; select 1;', "x'y", 'x"y', '`', '/*', '*/', '--', ' BEGIN ', 'END;', 'GO',
           '\n;\n', '(', ')', ';)', '$$', '$a$', '# ', '', ' ', 'é;', '\x00;', ';;;;']
 
 
@@ -42,7 +42,8 @@ def region_variants(text, rng, k=3):
             spans.append((off, off + len(v), kind, pre, post, forbid))
         off += len(v)
     for (a, b, kind, pre, post, forbid) in spans:
-        cands = [x for x in BODIES if not any(f in x for f in forbid)]
+        q = pre if kind in ('str', 'dq', 'bt') else None
+        cands = [x for x in BODIES if not any(f in (x.replace(q + q, '') if q else x) for f in forbid)]
         if kind == 'cmt1':
             cands = [x for x in cands if not x.startswith('+')]
         if kind == 'cmtm':
